@@ -15,7 +15,7 @@
    the real server; Trace_LspSched.tla accepts the observed events only if after every grant the
    flags, the channel length, the last state and every thread's position equal the model's.
 """
-import json, os, hashlib
+import json, os, hashlib, time
 from lib.common import *
 
 FLAGS = ("FixNotify", "FixOpen", "FixClear", "FixSave")
@@ -219,14 +219,19 @@ def replay_and_validate(ctx, scheds, c, label, shards=4):
         inp = os.path.join(ctx.work, "sched-%s-%d.ndjson" % (label, i))
         outp = os.path.join(ctx.work, "obs-%s-%d.ndjson" % (label, i))
         write_ndjson(inp, part)
+        # a HOME of its own: didChange runs `ps` for every pid-lock file it finds in ~/.forc/.lsp-locks
+        home = os.path.join(ctx.tmp, "home-%s-%d" % (label, i))
+        os.makedirs(home, exist_ok=True)
         ctx.vh("vh-lspsched", ["--mode", "replay", "--work", os.path.join(ctx.work, "r-%s-%d" % (label, i)),
-                               "--in", inp, "--out", outp], env={"HOME": ctx.tmp},
-               timeout=120 + 3 * len(part))
+                               "--in", inp, "--out", outp, "--timeout-ms", "90000"], env={"HOME": home},
+               timeout=600 + 3 * len(part))
         return read_ndjson(outp)
 
     ctx.build_vh("vh-lspsched")
+    t0 = time.time()
     with concurrent.futures.ThreadPoolExecutor(max_workers=len(parts)) as ex:
         obs_parts = list(ex.map(run_part, enumerate(parts)))
+    log("[C24] %s: %d schedules enforced on the real server in %.0fs" % (label, len(scheds), time.time() - t0))
     by_id = {s["id"]: s for s in scheds}
     tc = dict(c)
     tc.update(changes=3, saves=1, waiters=2)      # the trace spec knows every thread a schedule may use
